@@ -709,15 +709,17 @@ func (x *enfRun) lieFacts(f *enfEnd, evs []netsim.Event) {
 			if lieNode == nil {
 				continue
 			}
-			kind, ok := told[lieNode.Hash]
-			if !ok {
+			kind, hashTold := told[lieNode.Hash]
+			if !hashTold {
 				// a consistent liar may also have shown its false checkpoint only
 				for h, k := range told {
 					if n := e.W.G.ByHash[h]; n != nil && tip.Ancestor(n.Height) == n && k == "checkpt-consistent" {
 						pe.LieTold = "cfcheckpt"
 					}
 				}
-				continue
+				if ep.Plan.Lie.Kind != netsim.LieCheckpt && !ep.Liar.LiesAbout(lieNode) {
+					continue // the lie could not be constructed for this block: the peer is honest
+				}
 			}
 			if kind == netsim.LieCheckpt {
 				// A round = the false checkpoint is on the client's table
@@ -781,7 +783,7 @@ func (x *enfRun) lieFacts(f *enfEnd, evs []netsim.Event) {
 					var stop string
 					fmt.Sscanf(pend.Note, "start=%d stop=%s", &start, &stop)
 					fmt.Sscanf(ev.Note, "n=%d", &n)
-					if start > ep.Plan.Lie.Height && n > 0 && pe.LieTold != "cfheaders" {
+					if start > ep.Plan.Lie.Height && n > 0 && pe.LieTold != "cfheaders" && ep.Plan.Lie.Kind != netsim.LieCheckpt {
 						// A consistent liar's PrevFilterHeader above its lie
 						// is false too. On the at-tip path the client
 						// compares it with its own committed tip.
@@ -791,7 +793,7 @@ func (x *enfRun) lieFacts(f *enfEnd, evs []netsim.Event) {
 							pe.Detectable = "its cfheaders carried a false previous filter header while the client's own committed filter headers are the true ones"
 						}
 					}
-					if ep.Plan.Lie.Height >= start && ep.Plan.Lie.Height < start+n {
+					if hashTold && ep.Plan.Lie.Height >= start && ep.Plan.Lie.Height < start+n {
 						pe.LieTold = "cfheaders"
 						f.conflictsSeen = true
 						switch {
